@@ -44,6 +44,13 @@ impl State {
             return vec![];
         }
 
+        if let (Token::Comment(_), false) = (&token, self.token_this_line) {
+            // a line with only a comment is like a blank line, it says nothing about indentation
+            let lex = Lex::new(self.pos, token);
+            self.pos = lex.pos.end;
+            return vec![lex];
+        }
+
         self.token_this_line = true;
         let mut res = self.newlines.pop().map_or(vec![], |nl| vec![nl]);
         // Indentation level is the amount of complete steps of four spaces, so that every
